@@ -228,3 +228,57 @@ def check(ctx, roots, rule="E1", what="entry points"):
                   "AttributeError whenever it runs" %
                   ("/".join(classes), attr.attr), node=attr)
     return n
+
+
+def argument_binding(ctx, rule, roots=None, modules=None, what=""):
+    """Internal calls bind their positional arguments to the parameters they
+    are named after: where a positional argument is a plain name that is ALSO
+    the name of a parameter of the callee, it must sit at that parameter's
+    position (`f(mask, frac, sigma)` against `def f(mask, sigma, frac)`
+    silently crosses two options).  Scope: functions reachable from `roots`
+    and / or the functions of `modules`."""
+    from . import callgraph
+    from .core import norm, walk_no_nested
+    prog = ctx.prog
+    ctx.rule(rule, "positional arguments reach the parameters they are named "
+             "after in every call between functions of the package%s: a "
+             "name passed positionally that is the name of ANOTHER "
+             "parameter of the callee means two arguments are crossed" %
+             ((" (" + what + ")") if what else ""))
+    scope = set()
+    if roots:
+        g = callgraph.build(prog)
+        scope |= set(callgraph.reachable(g, [PKG + "." + r for r in roots]))
+    for q, fi in prog.functions.items():
+        if modules and any(fi.module.endswith(m) for m in modules):
+            scope.add(q)
+    n = 0
+    for q in sorted(scope):
+        fi = prog.functions[q]
+        mod = prog.modules[fi.module]
+        for c in walk_no_nested(fi.node):
+            if not isinstance(c, ast.Call) or not c.args:
+                continue
+            callee = None
+            if isinstance(c.func, ast.Name):
+                callee = prog.functions.get(prog.resolve_name(mod, c.func.id))
+            elif isinstance(c.func, ast.Attribute):
+                callee = prog.functions.get(prog.dotted(mod, c.func))
+                if callee is None and norm(c.func.value) in ("self", "cls") \
+                        and fi.cls:
+                    callee = prog.functions.get("%s.%s.%s" % (
+                        fi.module, fi.cls, c.func.attr))
+            if callee is None:
+                continue
+            params = [p_ for p_ in callee.params if p_ not in ("self", "cls")]
+            n += 1
+            crossed = [(i, a.id, params[i]) for i, a in enumerate(c.args)
+                       if isinstance(a, ast.Name) and a.id in params
+                       and i < len(params) and params[i] != a.id]
+            ctx.check(rule, fi, "argument order of " + norm(c, 60),
+                      not crossed,
+                      "argument %s is passed at the position of parameter "
+                      "`%s` of %s" % (["`%s`" % x[1] for x in crossed],
+                                      crossed[0][2] if crossed else "",
+                                      callee.short), node=c)
+    return n
